@@ -118,3 +118,12 @@ CHECKS["C03"] = _c(
     "Trusted: aws-sdk-s3's decoder, the reference XML reader, tokio's paused clock. Empty string vs absent on the response side and PutBucketPolicy's 204 (model says 200, S3 answers 204) get no verdict; response metadata is judged in one-hop configurations only.",
     "DESIGN.md 3/C03",
 )
+
+CHECKS["C15"] = _c(
+    "exploration",
+    "runtime monitoring: scripted select_object_content streams behind S3Service::call; the raw response body is decoded by the independent aws-smithy-eventstream frame decoder and compared event by event with what the backend emitted",
+    "harness (raw request driver)",
+    "Sequences of 0..50 events of the five kinds with interleaved errors (known / custom codes, absent / empty / hostile / 60 000-byte messages), Records payloads from 0 bytes over the 64 KiB edges to 1 MiB and every Stats / Progress member pattern are emitted by the scripted backend; every frame of the response must be accepted by an independent decoder (total and header lengths, prelude and message CRC-32, string-typed headers) and carry the event's type headers, payload bytes (XML details read by the reference reader) in the same order and number. Held on the streams observed.",
+    "Trusted: aws-smithy-eventstream's MessageFrameDecoder and the reference XML reader. Error messages stay below the 64 KiB limit of a header value.",
+    "DESIGN.md 3/C15",
+)
